@@ -788,6 +788,7 @@ func TestVerifC10(t *testing.T) {
 	c10Transport(t, c, shapes)
 	c10EmptyWriteAfterDone(t, c, shapes[0])
 	c10CrashStates(t, c, shapes)
+	c10IncrementalInstall(t, c, shapes)
 	rep.vfCompareSegments("snapstream", c.segOps, c.segImpl)
 }
 
@@ -1150,5 +1151,67 @@ func c10CrashStates(t *testing.T, c *c10Ctx, shapes []*c10Shape) {
 			}
 			os.RemoveAll(root)
 		}
+	}
+}
+
+// c10IncrementalInstall: the incremental-file path end to end on the real Sink: a local WAL
+// directory (WAL files + sidecars), the header-only stream, Close; the WAL files must end up in
+// the snapshot directory byte for byte, with sidecars and meta.json, and the source directory is
+// consumed. Data after the header must be refused (already covered by the stream mutations).
+func c10IncrementalInstall(t *testing.T, c *c10Ctx, shapes []*c10Shape) {
+	for _, s := range shapes {
+		if !s.real || len(s.wals) == 0 {
+			continue
+		}
+		root, _ := os.MkdirTemp(c.root, "inc-store")
+		walDir := filepath.Join(c.root, fmt.Sprintf("inc-wal-dir-%d", c10Seq))
+		c10Seq++
+		os.MkdirAll(walDir, 0o755)
+		for i, w := range s.wals {
+			p := filepath.Join(walDir, fmt.Sprintf("%020d.wal", i+1))
+			os.WriteFile(p, w, 0o644)
+			sidecar.WriteFile(p+crcSuffix, c10CRC(w))
+		}
+		hdr, _ := NewIncrementalFileSnapshotHeader(walDir)
+		hb, _ := marshalSnapshotHeader(hdr)
+		id := "2-88-1700000000088"
+		sink := NewSink(root, &raft.SnapshotMeta{ID: id, Index: 88, Term: 2}, nil, nil)
+		sink.fatalFn = nil
+		sink.Open()
+		info := map[string]interface{}{"shape": s.name, "wals": len(s.wals)}
+		c.rep.Count("incremental-file-installs")
+		c.rep.Case("inc|"+s.name, true)
+		if _, err := sink.Write(c10Frame(hb)); err != nil {
+			c.rep.Fail("incremental-install-fails", err.Error(), info)
+			continue
+		}
+		if err := sink.Close(); err != nil {
+			c.rep.Fail("incremental-install-fails", err.Error(), info)
+			continue
+		}
+		ok := true
+		for i, w := range s.wals {
+			p := filepath.Join(root, id, fmt.Sprintf("%020d.wal", i+1))
+			got, err := os.ReadFile(p)
+			if err != nil || !bytes.Equal(got, w) {
+				ok = false
+			}
+			if eq, err := sidecar.CompareFile(p, p+crcSuffix); err != nil || !eq {
+				ok = false
+			}
+		}
+		if _, err := os.Stat(metaPath(filepath.Join(root, id))); err != nil {
+			ok = false
+		}
+		if _, err := os.Stat(walDir); err == nil {
+			ok = false // the source directory must have been consumed
+		}
+		if _, err := os.Stat(tmpName(filepath.Join(root, id))); err == nil {
+			ok = false
+		}
+		if !ok {
+			c.rep.Fail("incremental-install-not-exact", fmt.Sprintf("shape %s: installed WAL files / sidecars / meta.json / consumed source do not match", s.name), info)
+		}
+		os.RemoveAll(root)
 	}
 }
